@@ -317,7 +317,7 @@ def wf_world(s):
         "wf:registry.dict": s.sel("CallbacksRegistry._registry", W.REG) == W.REGD,
         "wf:sm.state-cache": s.sel("StateMachine._states_for_instance", W.SM) == W.CACHE,
         "wf:queue-cursors": z3.And(0 <= s.sel("deque.head", W.Q), s.sel("deque.head", W.Q) <= s.sel("deque.tail", W.Q)),
-        "wf:log-cursors": z3.And(s.g("ntrig") >= 0, s.g("ng") >= 0),
+        "wf:log-cursors": z3.And(s.g("ntrig") >= 0, s.g("ng") >= 0, s.g("ncb") >= 0),
     }
 
 
@@ -347,13 +347,15 @@ def mstate(s):
 
 def prefix_kept(a0, a1, upto, tag="k"):
     k = z3.Const(f"{tag}!pk", Int)
-    return z3.ForAll([k], z3.Implies(z3.And(k >= 0, k < upto), z3.Select(a1, k) == z3.Select(a0, k)))
+    return z3.ForAll([k], z3.Implies(z3.And(k >= 0, k < upto), z3.Select(a1, k) == z3.Select(a0, k)),
+                     patterns=[z3.Select(a1, k)])
 
 
 def others_kept(key, s0, s, ref):
     """Array field `key` unchanged at every object other than `ref`."""
     o = z3.Const("o!ok", Int)
-    return z3.ForAll([o], z3.Implies(o != ref, z3.Select(s[key], o) == z3.Select(s0[key], o)))
+    return z3.ForAll([o], z3.Implies(o != ref, z3.Select(s[key], o) == z3.Select(s0[key], o)),
+                     patterns=[z3.Select(s[key], o)])
 
 
 def queue_items_valid(s):
@@ -369,13 +371,51 @@ def queue_items_valid(s):
 
 
 
+def reg_has(s, key):
+    return z3.Select(s.sel("dict.has", W.REGD), key)
+
+
+def reg_exec(s, key):
+    return z3.Select(s.sel("dict.val", W.REGD), key)
+
+
+def exec_len(s, ex):
+    dq = s.sel("CallbacksExecutor.items", ex)
+    return s.sel("deque.tail", dq) - s.sel("deque.head", dq)
+
+
+def group_empty(s, key):
+    """No callback is registered under `key`: no executor, or an executor without entries (the
+    async engine's `self._registry[key]` on a defaultdict creates empty ones on first use)."""
+    return z3.Or(z3.Not(reg_has(s, key)), exec_len(s, reg_exec(s, key)) == 0)
+
+
+def dicts_kept(s0, s):
+    o = z3.Const("o!dk", Int)
+    return z3.ForAll([o], z3.Implies(z3.And(o >= 0, o < s0["ghost.alloc"], o != W.REGD), z3.And(
+        z3.Select(s["dict.has"], o) == z3.Select(s0["dict.has"], o),
+        z3.Select(s["dict.val"], o) == z3.Select(s0["dict.val"], o))),
+        patterns=[z3.Select(s["dict.has"], o), z3.Select(s["dict.val"], o)])
+
+
+def registry_monotone(s0, s):
+    k = z3.Const("k!rm", Str)
+    return z3.ForAll([k], z3.And(
+        z3.Implies(reg_has(s0, k), z3.And(reg_has(s, k), reg_exec(s, k) == reg_exec(s0, k))),
+        z3.Implies(z3.And(z3.Not(reg_has(s0, k)), reg_has(s, k)), z3.And(
+            exec_len(s, reg_exec(s, k)) == 0, reg_exec(s, k) >= s0["ghost.alloc"], reg_exec(s, k) < s["ghost.alloc"],
+            s.sel("CallbacksExecutor.items", reg_exec(s, k)) >= s0["ghost.alloc"],
+            s.sel("CallbacksExecutor.items", reg_exec(s, k)) < s["ghost.alloc"]))))
+
+
 ENV_MODIFIES = [
     "deque.arr", "deque.tail", "deque.head", "Model.state",
     "ghost.ntrig", "ghost.trig_log", "ghost.trig_res",
     "ghost.ng", "ghost.g_key", "ghost.g_ms", "ghost.g_ks", "ghost.g_kind", "ghost.g_ok", "ghost.g_res",
     "ghost.g_reslen", "ghost.st", "ghost.ac",
     "idict.has", "idict.val", "IState._state+", "IState._machine+",
-    "list.arr+", "list.len+", "dict.has+", "dict.val+", "TriggerData.machine+", "TriggerData.event+",
+    "list.arr+", "list.len+", "dict.has", "dict.val", "CallbacksExecutor.items+", "CallbacksExecutor.items_already_seen+",
+    "TriggerData.machine+", "TriggerData.event+",
     "TriggerData.model+", "TriggerData.args+", "TriggerData.kwargs+", "Event.id+", "Event.name+",
     "Event._sm+", "Event._has_real_id+", "Event._transitions+",
 ]
@@ -414,6 +454,8 @@ def env_effect(s0, s, glog_grows_by=None):
             prefix_kept(s0.g("trig_log"), s.g("trig_log"), s0.g("ntrig"), "tl"),
         )),
         "env:queued-items-valid": z3.Implies(queue_items_valid(s0), queue_items_valid(s)),
+        "env:dicts-of-old-objects-kept": dicts_kept(s0, s),
+        "env:registry-grows-only-by-empty-groups": registry_monotone(s0, s),
         "env:glog-prefix-kept": z3.And(
             s.g("ng") >= s0.g("ng"),
             prefix_kept(s0.g("g_key"), s.g("g_key"), s0.g("ng"), "gk"),
@@ -488,3 +530,15 @@ def wf_class(s):
         "wfc:transitions-distinct": z3.ForAll([v, j, j2], z3.Implies(
             z3.And(smap_has(s, v), j >= 0, j < j2, j2 < n), z3.Select(arr, j) != z3.Select(arr, j2))),
     }
+
+
+class AsyncBinding:
+    """Mixin that binds a shared contract to the AsyncEngine twin of a function: same clauses,
+    awaited at call sites; AsyncEngine.__init__ rejects rtc=False, so rtc holds."""
+
+    is_async = True
+
+    def pre(self, s, a):
+        f = super().pre(s, a)
+        f["async-engine-is-rtc"] = rtc(s)
+        return f
